@@ -599,11 +599,60 @@ func Le(a, b *Term) *Term { return cmpInt("<=", a, b) }
 func Gt(a, b *Term) *Term { return cmpInt(">", a, b) }
 func Ge(a, b *Term) *Term { return cmpInt(">=", a, b) }
 
+// constPrefix returns the leading constant part of a string term.
+func constPrefix(t *Term) (string, bool) {
+	if t.IsConst() {
+		return t.S, true
+	}
+	if t.Op == "str.++" && t.Args[0].IsConst() {
+		return t.Args[0].S, false
+	}
+	return "", false
+}
+
+// cmpByPrefix decides a lexicographic comparison when the constant prefixes
+// already differ: returns -1 / +1, or 0 if undecided.
+func cmpByPrefix(a, b *Term) int {
+	pa, wa := constPrefix(a)
+	pb, wb := constPrefix(b)
+	ra, rb := []rune(pa), []rune(pb)
+	n := len(ra)
+	if len(rb) < n {
+		n = len(rb)
+	}
+	for i := 0; i < n; i++ {
+		if ra[i] != rb[i] {
+			if ra[i] < rb[i] {
+				return -1
+			}
+			return 1
+		}
+	}
+	// one prefix is a prefix of the other
+	if wa && len(ra) <= len(rb) && !(wb && len(ra) == len(rb)) {
+		// a is a whole constant that is a proper prefix of b's known prefix,
+		// or equal to a prefix of a longer/extendable b: a <= b; strict unless b could equal a
+		if len(ra) < len(rb) {
+			return -1
+		}
+	}
+	if wb && len(rb) < len(ra) {
+		return 1
+	}
+	return 0
+}
+
 func StrLt(a, b *Term) *Term {
 	if a.IsConst() && b.IsConst() {
 		return BoolT(a.S < b.S) // UTF-8 byte order == code point order
 	}
 	if a.Key() == b.Key() {
+		return FalseT
+	}
+	switch cmpByPrefix(a, b) {
+	case -1:
+		return TrueT
+	case 1:
 		return FalseT
 	}
 	return &Term{Op: "str.<", Args: []*Term{a, b}, Sort: SBool}
@@ -615,6 +664,12 @@ func StrLe(a, b *Term) *Term {
 	}
 	if a.Key() == b.Key() {
 		return TrueT
+	}
+	switch cmpByPrefix(a, b) {
+	case -1:
+		return TrueT
+	case 1:
+		return FalseT
 	}
 	return &Term{Op: "str.<=", Args: []*Term{a, b}, Sort: SBool}
 }
